@@ -79,6 +79,12 @@ impl Rng {
         v
     }
 
+    /// random bytes of a random length in lo..=hi
+    pub fn rbytes(&mut self, lo: usize, hi: usize) -> Vec<u8> {
+        let n = self.range(lo as u64, hi as u64) as usize;
+        self.bytes(n)
+    }
+
     pub fn pick<'a, T>(&mut self, xs: &'a [T]) -> &'a T {
         &xs[self.usize_below(xs.len())]
     }
